@@ -46,13 +46,38 @@ fn sibs(n: usize) -> Vec<Node> {
 
 /// kinds[i] = (is_leaf, terminator depth)
 fn multi_verify_total<H: NodeHasher>(kinds: &[(bool, usize)], nsib: usize, window: usize, query: bool) {
+    multi_verify_depths::<H>(kinds, None, nsib, window, query)
+}
+
+/// `depths`: None = every `depth` field is a full-width symbolic usize; Some(ds) = concrete
+/// claimed depths (used for >= 2 paths, where a symbolic slice bound exhausts CBMC).
+fn multi_verify_depths<H: NodeHasher>(
+    kinds: &[(bool, usize)],
+    depths: Option<&[usize]>,
+    nsib: usize,
+    window: usize,
+    query: bool,
+) {
     let mut paths = Vec::with_capacity(kinds.len());
     let mut i = 0;
     while i < kinds.len() {
         paths.push(MultiPathProof {
             terminal: term(kinds[i].0, kinds[i].1, window),
-            depth: kani::any(),
+            depth: match depths {
+                None => kani::any(),
+                Some(ds) => ds[i],
+            },
         });
+        i += 1;
+    }
+    // Identical leaf keys make `BitSlice::partial_cmp` walk all 256 bits; that case (rejected as
+    // PathsOutOfOrder) has its own harness `c18_mv_2leaf_equal`, here adjacent leaf keys differ
+    // inside the window (all other bits are zero by construction).
+    let mut i = 1;
+    while i < kinds.len() {
+        if kinds[i - 1].0 && kinds[i].0 {
+            kani::assume(paths[i - 1].terminal.path()[..8] != paths[i].terminal.path()[..8]);
+        }
         i += 1;
     }
     let mp = MultiProof {
@@ -99,13 +124,72 @@ mv!(c18_mv_empty_s1, [], 1, 4, false);
 mv!(c18_mv_1leaf_s0, [(true, 0)], 0, 4, false);
 mv!(c18_mv_1leaf_s2, [(true, 0)], 2, 4, false);
 mv!(c18_mv_1term_s1, [(false, 3)], 1, 4, false);
-// two paths
-mv!(c18_mv_2leaf_s0, [(true, 0), (true, 0)], 0, 4, false);
-mv!(c18_mv_2leaf_s2, [(true, 0), (true, 0)], 2, 4, false);
-mv!(c18_mv_leafterm_s1, [(true, 0), (false, 2)], 1, 4, false);
-mv!(c18_mv_2term_s1, [(false, 1), (false, 3)], 1, 4, false);
-// three paths
-mv!(c18_mv_3leaf_s1, [(true, 0), (true, 0), (true, 0)], 1, 4, false);
+// two / three paths: claimed depths range over a menu of boundary values (concrete per run,
+// all combinations), everything else symbolic.
+pub const DEPTH_MENU: [usize; 8] = [0, 1, 2, 3, 5, 256, 257, usize::MAX];
+
+fn multi_menu<H: NodeHasher>(kinds: &[(bool, usize)], d0: &[usize], nsib: usize, window: usize) {
+    let mut a = 0;
+    while a < d0.len() {
+        let mut b = 0;
+        while b < DEPTH_MENU.len() {
+            if kinds.len() == 2 {
+                multi_verify_depths::<H>(kinds, Some(&[d0[a], DEPTH_MENU[b]]), nsib, window, false);
+            } else {
+                let mut c = 0;
+                while c < 4 {
+                    multi_verify_depths::<H>(kinds, Some(&[d0[a], DEPTH_MENU[b], DEPTH_MENU[c]]), nsib, window, false);
+                    c += 1;
+                }
+            }
+            b += 1;
+        }
+        a += 1;
+    }
+}
+
+macro_rules! mm {
+    ($name:ident, $kinds:expr, $d0:expr, $nsib:expr, $w:expr) => {
+        #[kani::proof]
+        pub fn $name() {
+            multi_menu::<HavocHasher>(&$kinds, &$d0, $nsib, $w)
+        }
+    };
+}
+mm!(c18_mm_2leaf_s0_a, [(true, 0), (true, 0)], [0, 1, 2, 3], 0, 4);
+mm!(c18_mm_2leaf_s0_b, [(true, 0), (true, 0)], [5, 256, 257, usize::MAX], 0, 4);
+mm!(c18_mm_2leaf_s2_a, [(true, 0), (true, 0)], [0, 1, 2, 3], 2, 4);
+mm!(c18_mm_2leaf_s2_b, [(true, 0), (true, 0)], [5, 256, 257, usize::MAX], 2, 4);
+mm!(c18_mm_leafterm_s1_a, [(true, 0), (false, 2)], [0, 1, 2, 3], 1, 4);
+mm!(c18_mm_leafterm_s1_b, [(true, 0), (false, 2)], [5, 256, 257, usize::MAX], 1, 4);
+mm!(c18_mm_termleaf_s1_a, [(false, 2), (true, 0)], [0, 1, 2, 3], 1, 4);
+mm!(c18_mm_2term_s1_a, [(false, 1), (false, 3)], [0, 1, 2, 3], 1, 4);
+mm!(c18_mm_2term_s1_b, [(false, 1), (false, 3)], [5, 256, 257, usize::MAX], 1, 4);
+mm!(c18_mm_2term_s0_a, [(false, 2), (false, 4)], [0, 1, 2, 3], 0, 4);
+mm!(c18_mm_3leaf_s1_a, [(true, 0), (true, 0), (true, 0)], [1, 2], 1, 4);
+mm!(c18_mm_3mixed_s2_a, [(false, 2), (true, 0), (false, 3)], [1, 2], 2, 4);
 // with queries
 mv!(c18_mq_1leaf_s1, [(true, 0)], 1, 4, true);
 mv!(c18_mq_2leaf_s1, [(true, 0), (true, 0)], 1, 4, true);
+
+/// Two leaves with the *same* (symbolic, full 32-byte) key: must be rejected, never panic.
+#[kani::proof]
+pub fn c18_mv_2leaf_equal() {
+    let k: KeyPath = kani::any();
+    let mk = || MultiPathProof {
+        terminal: PathProofTerminal::Leaf(LeafData {
+            key_path: k,
+            value_hash: kani::any(),
+        }),
+        depth: kani::any(),
+    };
+    let mp = MultiProof {
+        paths: vec![mk(), mk()],
+        siblings: sibs(1),
+    };
+    let res = verify_multi_proof::<HavocHasher>(&mp, kani::any());
+    assert!(res.is_err());
+    kani::cover!(true, "reached");
+    core::mem::forget(res);
+    core::mem::forget(mp);
+}
